@@ -35,6 +35,30 @@ def check_layout(prog):
     return _check_layout(prog)
 
 
+SEARCH_LAYOUT = {
+    'search::Search': ['running', 'board', 'original_board', 'limits', 'info'],
+    'search::info::Info': ['best_move', 'best_score', 'nodes', 'depth', 'seldepth', 'killers'],
+    'search::limits::SearchLimits': ['depth', 'nodes', 'movetime', 'white_time', 'black_time', 'white_increment', 'black_increment', 'time_management_timer'],
+    'board::transposition_table::TTEntry': ['score', 'depth', 'bound', 'best_ply'],
+}
+UCI_LAYOUT = {'uci::Uci': ['board', 'search_running', 'join_handle']}
+
+
+def layout_mismatch(prog, which):
+    """names of the structs / enums whose layout differs from what a harness hard-codes (values are built as positional
+    tuples): a harness that would feed misaligned fields to the executor must answer inconclusive, never a verdict"""
+    bad = [k for k, v in which.items() if prog.structs.get(k) != v]
+    if which is SEARCH_LAYOUT:
+        if [v[0] for v in prog.enums.get('board::transposition_table::Bounds', [])] != ['Exact', 'Lower', 'Upper']:
+            bad.append('board::transposition_table::Bounds')
+    if which is UCI_LAYOUT:
+        if [v[0] for v in prog.enums.get('uci::uci_command::UCICommand', [])] != ['Uci', 'IsReady', 'UCINewGame', 'SetOption', 'Position', 'Go', 'Stop', 'Quit']:
+            bad.append('uci::uci_command::UCICommand')
+        if [v[0] for v in prog.enums.get('uci::uci_command::PositionKind', [])] != ['StartPos', 'Fen']:
+            bad.append('uci::uci_command::PositionKind')
+    return bad
+
+
 def _check_layout(prog):
     """the harness' idea of the data layout must match the source; otherwise the check is inconclusive"""
     s = prog.structs
